@@ -319,7 +319,9 @@ fn text_dfs(seq: &mut Vec<usize>, left: usize, builts: &[Built], subs: &[(&dyn S
 /// without a throwable first; frames that differ only in their file
 pub fn run_length_texts() -> Vec<String> {
     let mut v = Vec::new();
-    for n in [99usize, 100, 101, 255, 256, 499, 500, 501, 1000, 1001] {
+    // smallest first: a defect whose cost grows with the run length is reported from the short runs even when a
+    // long run never returns
+    for n in [3usize, 4, 5, 8, 17, 99, 100, 101, 255, 256, 499, 500, 501, 1000, 1001] {
         for (ui, unresolved) in ["    at x.Unknown.m(U.java:2)", "    at a.b.zz(F.java:2)", "    at a.b.m(F.java:99)"].iter().enumerate() {
             let mut t = String::new();
             if ui != 1 {
@@ -407,7 +409,7 @@ pub fn recheck_text(case: &Value) -> Vec<String> {
 // ---------------------------------------------------------------------------------------------
 // C08: typed traces (R13) and agreement with the text API
 
-const THROWABLES: [Option<(&str, Option<&str>)>; 5] = [None, Some(("a.E", Some("boom"))), Some(("a.E", None)), Some(("x.Unknown", Some("msg: with colon"))), Some(("x.Unknown", None))];
+const THROWABLES: [Option<(&str, Option<&str>)>; 6] = [None, Some(("a.E", Some("boom"))), Some(("a.E", None)), Some(("x.Unknown", Some("msg: with colon"))), Some(("x.Unknown", None)), Some(("a.E", Some("open: /x: denied")))];
 const FRAMES: [(&str, &str, usize, Option<&str>); 8] = [
     ("a.b", "m", 2, Some("F.java")),
     ("a.b", "zz", 2, Some("F.java")),
